@@ -66,7 +66,7 @@ func (opts *CompileOptions) Compile(source string) (string, error) {
 				mode:   letExprMode,
 			}
 			sb := new(strings.Builder)
-			if err := writeExpressionMaybeParen(ctx, sb, stmt.X); err != nil {
+			if err := writeTightOperand(ctx, sb, stmt.X); err != nil {
 				return "", err
 			}
 			scope[stmt.Name.Name] = sb.String()
@@ -697,7 +697,7 @@ func writeExpression(ctx *exprContext, sb *strings.Builder, x parser.Expr) error
 		default:
 			fmt.Fprintf(sb, "/* unhandled %s unary op */ ", x.Op)
 		}
-		if err := writeExpressionMaybeParen(ctx, sb, x.X); err != nil {
+		if err := writeTightOperand(ctx, sb, x.X); err != nil {
 			return err
 		}
 	case *parser.BinaryExpr:
@@ -791,7 +791,7 @@ func writeExpression(ctx *exprContext, sb *strings.Builder, x parser.Expr) error
 		}
 		sb.WriteString(")")
 	case *parser.IndexExpr:
-		if err := writeExpressionMaybeParen(ctx, sb, x.X); err != nil {
+		if err := writeTightOperand(ctx, sb, x.X); err != nil {
 			return err
 		}
 		sb.WriteString("[")
@@ -843,6 +843,31 @@ func writeExpressionMaybeParen(ctx *exprContext, sb *strings.Builder, x parser.E
 		}
 	}
 
+	sb.WriteString("(")
+	if err := writeExpression(ctx, sb, x); err != nil {
+		return err
+	}
+	sb.WriteString(")")
+	return nil
+}
+
+// writeTightOperand writes an expression to sb
+// in a position where a sign precedes it or an index follows it
+// (or where it will be substituted into such a position later).
+// It is like writeExpressionMaybeParen,
+// but also parenthesizes signed expressions:
+// "-(-x)" must not become the comment "--x" and "(-x)[1]" must not become "-x[1]".
+func writeTightOperand(ctx *exprContext, sb *strings.Builder, x parser.Expr) error {
+	for {
+		p, ok := x.(*parser.ParenExpr)
+		if !ok {
+			break
+		}
+		x = p.X
+	}
+	if _, ok := x.(*parser.UnaryExpr); !ok {
+		return writeExpressionMaybeParen(ctx, sb, x)
+	}
 	sb.WriteString("(")
 	if err := writeExpression(ctx, sb, x); err != nil {
 		return err
